@@ -1,5 +1,10 @@
 # property id -> claim text (filled as checks are admitted; everything else is listed under NA with the reason)
 CLAIMS = {
+ 'C15': {'technique': 'static analysis: extraction and comparison of the special-character tables from the resolved AST (switch cases, position-0 comparisons, token predicate), escape-branch coverage check',
+         'text': 'Decides two necessary conditions of C15 for every pattern/string at once: every character the translator or the regex engine treats specially is reported by IsRegexToken in the matching '
+                 'position class (so escaping neutralises it and the uniqueness test sees it), and the translator never turns backslash+c into a regex operator for the characters where the dialect defines one. '
+                 'Matching semantics in general are not decided.',
+         'note': 'Narrow. Target dialect fixed to glibc regcomp(REG_EXTENDED).'},
  'C16': {'technique': 'static analysis on forced template instantiations: per-instantiation constant folding of IsPerItemClearNecessary(), CFG pruning, shrink->reset and reset->grow pairing',
          'text': 'Decides one structural clause of C16 — "never exposes stale items after shrinking": per instantiation (Queue<int32>, Queue<String>, Queue<ByteBufferRef>) either every reachable decrease of '
                  '_itemCount resets the vacated slot(s) to the default item on every feasible path, or every growth of _itemCount over unassigned slots first stores the default item into them. '
@@ -70,6 +75,6 @@ CLAIMS = {
          'note': 'Assumes const methods with by-value/const-ref parameters do not change what loop tests read; logging and destructor hubs are cut from the recursion graph.'},
 }
 _PENDING = 'check under construction in this session (see DESIGN.md section 4); not claimed until its rule is admitted'
-NA = {pid: _PENDING for pid in ['C01','C03','C08','C14','C15','C17']}
+NA = {pid: _PENDING for pid in ['C01','C03','C08','C14','C17']}
 NA['C09'] = ('refinement of an ideal ordered map over operation histories with live iterators: its mechanisms are co-located with the mutations they protect inside single template functions; '
              'no sound structural necessary condition was found that is not either compiler-enforced or a frozen-fragment match (DESIGN.md section 4, C09)')
